@@ -26,6 +26,9 @@ pub struct Case {
     /// the descriptors of the allow / exclude list carry an unknown credential type
     #[serde(default)]
     pub unknown_type: bool,
+    /// the allow / exclude list is present but empty (contents that otherwise carry no list)
+    #[serde(default)]
+    pub empty_list: bool,
 }
 
 const RP: &str = "example.com";
@@ -47,9 +50,12 @@ pub fn cases(tier: Tier) -> Vec<Case> {
                         continue;
                     }
                     let api = if c.op == Op::Make { "make_credential" } else { "get_assertion" };
-                    v.push(Case { api: api.into(), cfg: c.clone(), content, memory_store, prf, unknown_type: false });
+                    v.push(Case { api: api.into(), cfg: c.clone(), content, memory_store, prf, unknown_type: false, empty_list: false });
+                    if matches!(content, Content::NoMatch | Content::MatchNoList | Content::TwoNoList) {
+                        v.push(Case { api: api.into(), cfg: c.clone(), content, memory_store, prf, unknown_type: false, empty_list: true });
+                    }
                     if matches!(content, Content::MatchViaList | Content::OtherRpOnly | Content::TwoViaList) && !prf {
-                        v.push(Case { api: api.into(), cfg: c.clone(), content, memory_store, prf, unknown_type: true });
+                        v.push(Case { api: api.into(), cfg: c.clone(), content, memory_store, prf, unknown_type: true, empty_list: false });
                     }
                 }
             }
@@ -60,7 +66,7 @@ pub fn cases(tier: Tier) -> Vec<Case> {
             for memory_store in [false, true] {
                 for prf in [false, true] {
                     let cfg = C04Case { op: Op::Get, rk: false, up: true, uv: false, cap, presence_cap, outcome: 3, pin: false, arc_mutex: false, level: 0, uvreq: 0 };
-                    v.push(Case { api: "get_info".into(), cfg, content: Content::NoMatch, memory_store, prf, unknown_type: false });
+                    v.push(Case { api: "get_info".into(), cfg, content: Content::NoMatch, memory_store, prf, unknown_type: false, empty_list: false });
                 }
             }
         }
@@ -181,6 +187,7 @@ where
 
 fn observe(c: &Case, via_trait: bool) -> Obs {
     let (items, list) = seeds(c.content);
+    let list = if c.empty_list { Some(vec![]) } else { list };
     let log = Log::new();
     if c.memory_store {
         let m: MemoryStore = items.into_iter().map(|p| (p.credential_id.to_vec(), p)).collect();
@@ -231,7 +238,9 @@ pub fn eval(c: &Case) -> (Vec<Finding>, String) {
 
 #[derive(Clone, Debug, Serialize, Deserialize, PartialEq, Eq, Hash)]
 pub struct SeqCase {
-    /// operations: 0 get_info, 1 make_credential, 2 get_assertion
+    /// operations: 0 get_info, 1 make_credential, 2 get_assertion (allow list naming the seeded
+    /// credential), 3 get_assertion without allow list, 4 get_assertion with a present but empty
+    /// allow list, 5 make_credential rk=false with a present but empty exclude list
     pub ops: Vec<u8>,
     /// what changes between consecutive operations: 0 nothing, 1 verification capability
     /// Some(true) -> None, 2 presence capability true -> false, 3 store capability Full -> OnlyNonDiscoverable
@@ -279,8 +288,8 @@ fn run_seq(c: &SeqCase, via_trait: bool) -> (Vec<String>, Vec<(String, Option<Ve
                 let r = if via_trait { block_on(Ctap2Api::get_info(&auth)) } else { block_on(auth.get_info()) };
                 format!("{r:?}")
             }
-            1 => {
-                let req = mc_request(RP, &[9, k as u8], None, true, true, true, false, None);
+            1 | 5 => {
+                let req = if *op == 1 { mc_request(RP, &[9, k as u8], None, true, true, true, false, None) } else { mc_request(RP, &[8, k as u8], Some(vec![]), false, true, false, false, None) };
                 let r = if via_trait { block_on(Ctap2Api::make_credential(&mut auth, req)) } else { block_on(auth.make_credential(req)) };
                 match r {
                     Ok(r) => format!("ok flags={:?} counter={:?}", r.auth_data.flags, r.auth_data.counter),
@@ -288,10 +297,18 @@ fn run_seq(c: &SeqCase, via_trait: bool) -> (Vec<String>, Vec<(String, Option<Ve
                 }
             }
             _ => {
-                let req = ga_request(RP, Some(vec![cred_id(1)]), false, true, true, false, None);
+                let list = match op {
+                    2 => Some(vec![cred_id(1)]),
+                    3 => None,
+                    _ => Some(vec![]),
+                };
+                let req = ga_request(RP, list, false, true, *op == 2, false, None);
                 let r = if via_trait { block_on(Ctap2Api::get_assertion(&mut auth, req)) } else { block_on(auth.get_assertion(req)) };
                 match r {
-                    Ok(r) => format!("ok:{r:?}"),
+                    // the seeded credential signs deterministically (RFC 6979): whole response;
+                    // a credential created earlier in the sequence has a random id and key
+                    Ok(r) if r.credential.as_ref().is_some_and(|d| *d.id == cred_id(1)[..]) => format!("ok:{r:?}"),
+                    Ok(r) => format!("ok:fresh-credential flags={:?} counter={:?} user={:?} n={:?}", r.auth_data.flags, r.auth_data.counter, r.user.as_ref().map(|u| u.id.to_vec()), r.number_of_credentials),
                     Err(e) => format!("err:{:02x}", sc_byte(e)),
                 }
             }
@@ -313,7 +330,7 @@ pub fn eval_seq(c: &SeqCase) -> (Vec<Finding>, String) {
         Ok(t) => {
             for (k, (a, b)) in d.0.iter().zip(t.0.iter()).enumerate() {
                 if a != b {
-                    let api = ["get_info", "make_credential", "get_assertion"][c.ops[k] as usize % 3];
+                    let api = ["get_info", "make_credential", "get_assertion", "get_assertion", "get_assertion", "make_credential"][c.ops[k] as usize % 6];
                     fs.push(Finding::new(format!("sequence/api={api}/kind=result-differs"), format!("operation #{k} of {:?} (change between operations: {}): direct {} / trait {}", c.ops, c.flip, &a[..a.len().min(160)], &b[..b.len().min(160)]), case.clone()));
                 }
             }
@@ -328,11 +345,11 @@ pub fn eval_seq(c: &SeqCase) -> (Vec<Finding>, String) {
 pub fn seq_cases(tier: Tier) -> Vec<SeqCase> {
     let mut v = vec![];
     for flip in 0..4u8 {
-        for a in 0..3u8 {
-            for b in 0..3u8 {
+        for a in 0..6u8 {
+            for b in 0..6u8 {
                 v.push(SeqCase { ops: vec![a, b], flip });
                 if tier == Tier::Thorough {
-                    for c in 0..3u8 {
+                    for c in 0..6u8 {
                         v.push(SeqCase { ops: vec![a, b, c], flip });
                     }
                 }
